@@ -118,6 +118,10 @@ func c05FnPrograms(thorough bool, f func(fam, src string) bool) bool {
 	// repeated parameter names (rejected by the parser: the same verdict in both configurations)
 	for _, src := range []string{"func f(p, p) { p }\nprintln(f(1, 2))", "f = (p, p) => p + 1\nprintln(f(1, 2))", "func f(p, q, p) { [p, q] }\nprintln(f(1, 2, 3))",
 		"f = func(p, p) { p = p + 1; p }\nprintln(f(1, 2.5))",
+		// names of extension namespaces and of their members as integer parameters and loop variables, the extension used in the same body
+		"func f(time) { [time, time.now() > 0] }\nprintln(f(3))", "for image = 2 { image.new(\"rimg\", 2, 2); println(image) }", "func f(now) { [now, time.now() > now] }\nprintln(f(3))",
+		"func f(new, set) { image.new(\"rim2\", new, set); image.set(\"rim2\", 0, 0, [1, 2, 3]); [new, set] }\nprintln(f(2, 3))", "for parse = 2 { println(parse, time.parse(\"2024-01-02\") > 0) }",
+		"func f(info) { info }\nprintln(len(f(3)))", "func f(self) { self }\nprintln(f(3))", "for info = 2 { println(len(info)) }", "func g9() { for self = 2 { println(self) } }\ng9()", "for math = 2 { println(math, sqrt(4)) }", "func f(time) { time = time + 1; time.now() > time }\nprintln(f(1))",
 		// names of extension functions as integer parameters and loop variables
 		"func f(max) { max }\nprintln(f(3))", "func f(a, len2, min) { [a, min] }\nprintln(f(1, 2, 3))", "for max = 3 { println(max) }", "func f() { for sin = 2 { println(sin) } }\nf()", "f = min => min + 1\nprintln(f(2))", "func f(p, .., p) { p }\nprintln(f(1, 2))", "m = macro(p, p) { quote(unquote(p)) }\nprintln(m(1, 2))"} {
 		if !f("fn", src) {
@@ -240,6 +244,10 @@ func c05Loop(names []string, forms []int, exitLevel int, exit string, exitFirst 
 			sb.WriteString("for 2 {\n")
 		case forms[i] == 1:
 			sb.WriteString("for " + names[i] + " = 1:3 {\n")
+		case forms[i] == 2: // the declaring forms
+			sb.WriteString("for " + names[i] + " := 2 {\n")
+		case forms[i] == 3:
+			sb.WriteString("for " + names[i] + " := 1:3 {\n")
 		default:
 			sb.WriteString("for " + names[i] + " = 2 {\n")
 		}
@@ -295,6 +303,13 @@ func c05LoopPrograms(thorough bool, f func(fam, src string) bool) bool {
 				fs := make([]int, d)
 				fs[l] = 1
 				formSets = append(formSets, fs)
+				if d <= 2 { // the declaring forms (:=) at each single level of the shallower nests
+					for _, f := range []int{2, 3} {
+						fs2 := make([]int, d)
+						fs2[l] = f
+						formSets = append(formSets, fs2)
+					}
+				}
 			}
 			for _, forms := range formSets {
 				for lvl := 0; lvl < d; lvl++ {
